@@ -47,3 +47,5 @@ man = {
 }
 json.dump(man, open(os.path.join(VERIF, "MANIFEST.json"), "w"), indent=1, ensure_ascii=False)
 print(f"MANIFEST.json: {len(checks)} checks, {len(na)} not yet claimed")
+import subprocess, sys
+subprocess.run([sys.executable, os.path.join(VERIF, "tools", "fingerprint.py"), "--record"])
